@@ -59,6 +59,15 @@ Theorem c20_capacity_refuted : exists l, ~ (count (runs init l) <= limit (runs i
 Proof. exact cap_inv_refuted. Qed.
 Print Assumptions c20_capacity_refuted.
 
+(* The processed chain tip plays no part: entries whose expiration height has passed are neither
+   dropped nor hidden nor left out of the count.  Removing every [Tip] operation from a history
+   gives the same final state and the same observations for all other operations. *)
+Theorem c20_chain_tip_is_irrelevant : forall (l : list op),
+  runs init (filter (fun o => negb (is_tip o)) l) = runs init l /\
+  trace init (filter (fun o => negb (is_tip o)) l) = filter (fun x => negb (is_tip (fst x))) (trace init l).
+Proof. exact (fun l => conj (runs_without_tips init l) (trace_without_tips init l)). Qed.
+Print Assumptions c20_chain_tip_is_irrelevant.
+
 (* non-vacuity: an accepted and a rejected update exist *)
 Example c20_nonvacuous :
   snd (step (runs init [SetLimit 2; Put 1 e1 true false]) (Put 1 e1 true false))
